@@ -119,8 +119,8 @@ class Doc:
         return code_stream(self.lexer, new_text) == self.stream
 
 
-SPACE_LINES = ["    ", " \t ", "\x0c", " \x0b ", "\t\t"]            # whitespace-only lines, incl. a ^L page break
-TRAIL_WS = ["   ", "\t", " \x0c", " \x0b", "  \t "]
+SPACE_LINES = ["    ", " \t ", "\x0c", " \x0b ", "\t\t", "\u00a0", "  \u2003 ", "\u3000\u3000", " \x1c"]            # whitespace-only lines, incl. a ^L page break
+TRAIL_WS = ["   ", "\t", " \x0c", " \x0b", "  \t ", " \u00a0", "\u3000"]
 
 
 def payload_for(lang, kind, style_idx, indent="", salt=0):
